@@ -97,6 +97,54 @@ theorem chan_roundtrip {α : Type} (es : List α) :
   rw [List.foldl_append, chanRun_writes, List.nil_append, chanRun_reads]
   simp
 
+/-- FIFO without loss, with cancelled calls mixed in: however Writes that succeed or fail and Reads
+    that return an envelope or fail with their context's error are interleaved, what the Reads have
+    returned, followed by what is still in flight, is exactly what the successful Writes were handed,
+    in write order. A failed call has no effect. -/
+theorem chan_fifo_with_cancelled_calls {α : Type} [DecidableEq α] (evs : List (ChanEv α)) :
+    ∀ (q q' : List α), chanObs false q evs = some q' → chanGot evs ++ q' = q ++ chanAccepted evs := by
+  induction evs with
+  | nil => intro q q' h; simp [chanObs] at h; simp [chanGot, chanAccepted, h]
+  | cons ev evs ih =>
+    intro q q' h
+    cases ev with
+    | wrote e =>
+      simp only [chanObs] at h
+      have := ih _ _ h
+      simp [chanGot, chanAccepted, this]
+    | writeFailed e =>
+      simp only [chanObs] at h
+      have := ih _ _ h
+      simp [chanGot, chanAccepted, this]
+    | readGot e =>
+      cases q with
+      | nil => simp [chanObs] at h
+      | cons x q0 =>
+        simp only [chanObs] at h
+        split at h
+        · rename_i hx
+          have := ih _ _ h
+          simp [chanGot, chanAccepted, this, hx]
+        · simp at h
+    | readFailed =>
+      simp only [chanObs] at h
+      have := ih _ _ h
+      simpa [chanGot, chanAccepted] using this
+
+/-- … in particular once everything in flight has been read, the reader has exactly what was accepted -/
+theorem chan_drained_is_accepted {α : Type} [DecidableEq α] (evs : List (ChanEv α))
+    (h : chanObs false [] evs = some []) : chanGot evs = chanAccepted evs := by
+  simpa using chan_fifo_with_cancelled_calls evs [] [] h
+
+/-- negative witness: a transport whose failing Read has swallowed the head of the queue (the receive
+    won the `select`, the context check came after it) loses an accepted envelope -/
+theorem bad_failed_read_drops :
+    chanObs true [] [ChanEv.wrote 1, .wrote 2, .readFailed, .readGot 2] = some ([] : List Nat) ∧
+    chanGot [ChanEv.wrote 1, .wrote 2, .readFailed, .readGot 2] ≠ chanAccepted [ChanEv.wrote 1, .wrote 2, .readFailed, .readGot 2] := by
+  decide
+
+example : chanObs false [] [ChanEv.wrote 1, .readFailed, .writeFailed 9, .wrote 2, .readGot 1, .readGot 2] = some ([] : List Nat) := by decide
+
 /-- a `Read` whose context is done has an outcome (it does not stay blocked) on a transport that honours the
     context, and with nothing in flight and the connection open the outcome is the context's error -/
 theorem read_returns_on_ctx_done {α : Type} (closed : Bool) (q : List α) :
